@@ -20,6 +20,8 @@ def diagnostics : List String :=
   ((unexplained.filter (fun p => p.1.write || !p.2.write)).map (fun p => "C18 unsynchronised pair: " ++ describePair p.1 p.2)) ++
   ((callerHolds.filter (fun e => !callerHoldsOk tables calls e)).map (fun e =>
     "C18 callerHolds entry no longer justified by the call rows: " ++ nameOf e.fn ++ " under " ++ nameOf e.lock)) ++
+  ((calls.filter (reentrant tables acquires)).map (fun c =>
+    "C18 re-entrant lock: " ++ nameOf c.caller ++ " calls " ++ nameOf c.callee ++ " (line " ++ toString c.line ++ ") holding a mutex the callee locks again")) ++
   ((knownRacy.filter (fun k => !racyPairs.any (fun p => p.1.field == k.field && p.1.fn == k.fnA && p.2.fn == k.fnB))).map (fun k =>
     "C18 stale knownRacy entry: " ++ nameOf k.field ++ " " ++ nameOf k.fnA ++ " | " ++ nameOf k.fnB))
 
@@ -78,6 +80,10 @@ theorem C18_lockset_statement_false : ¬ C18_lockset_statement := by
   have := h r (List.mem_filter.mp hr).1 s (List.mem_filter.mp hs).1
   rw [hrs] at this
   exact Bool.noConfusion this
+
+/-- **No re-entrant locking**: no function is called with a mutex held that it locks again itself (the recursive
+read lock of the block-locator functions was of this kind). -/
+theorem C18_no_reentrant_lock : calls.all (fun c => !reentrant tables acquires c) = true := by decide +kernel
 
 /-- the "only called with the lock held" claims of the ownership table agree with every extracted call -/
 theorem C18_caller_holds : callerHolds.all (callerHoldsOk tables calls) = true := by decide +kernel
